@@ -19,6 +19,8 @@ TRANSFORMS = [
     "items (struct/const/type): attributes dropped except that `#[derive(.. Clone, Copy ..)]` is re-emitted as `#[derive(Clone, Copy)]`, visibility normalised to `pub`; with option `pubfields` private struct fields are declared `pub` (a datatype with private fields is opaque to Verus specifications); with option `w64args` a const initialised by `T::w64be(..)`/`w64le(..)` with four literal limbs is emitted as an opaque constant (compile-time Montgomery conversion) together with a generated spec function `<NAME>_w64()` holding the integer those literals denote; with option `specinit` an associated const with an arithmetic initialiser is emitted opaque together with `<NAME>_init()` = the initialiser text as a spec function over mathematical integers and the declared axiom that the const equals it when in range (the initialiser's overflow check belongs to the compiler: a bad instantiation does not compile); with option `limbs`, a const initialised by `T::w64be(l3,l2,l1,l0)` / `T::w64le(l0,l1,l2,l3)` with four literal limbs is rewritten to the tuple-struct literal `GF255([l0,l1,l2,l3])` (w64be/w64le are proved in the same unit to build exactly that array)",
     "anonymous loop pattern: `for _ in <range>` -> `for vloop<k> in <range>` (k-th such loop of the function) so that a loop invariant can name the counter",
     "only with option `nested`: the impl block is looked up inside the body of a metavariable-free `macro_rules!` definition (define_frost_core, define_lms_core: plain Rust text that every instantiating module expands verbatim); the names it takes from the instantiating module are declared in the unit",
+    "only with option `destruct` (this Verus does not support destructuring assignment): a statement `(p0, p1, ..) = e;` -> `let (vdaK_0, vdaK_1, ..) = e; p0 = vdaK_0; p1 = vdaK_1; ..` (K = ordinal of the statement; a `_` place stays `_` in the pattern and gets no assignment). This is the desugaring the Rust reference gives for destructuring assignment: the right-hand side is evaluated first, then the places are assigned left to right",
+    "only with option `localconst` (a const item inside a function body whose initialiser calls a const fn cannot be evaluated in specifications by this Verus): `const NAME: T = e;` at statement position inside the body -> `let NAME: T = e;` (same value, computed when the statement is reached instead of at compile time)",
     "only with option `lebytes` (this Verus cannot attach a specification to the std byte-order conversions, whose signatures use the const expression `[u8; size_of::<T>()]`): `<int>::from_le_bytes(` -> `<int>_from_le_bytes(`, `<int>::from_be_bytes(` -> `<int>_from_be_bytes(` (int in u16/u32/u64/u128), and the method calls `.to_le_bytes()` / `.to_be_bytes()` -> `.vto_le_bytes()` / `.vto_be_bytes()`; the twins are declared in contracts/spec/lebytes_decl.vrs with the std semantics as ASSUMED contracts (trusted: std)",
     "only with option `revloops=<T>` (this Verus has no specification for Rev<Range>): `for v in (a..b).rev() {` -> `let mut vrev<k>: T = b; while vrev<k> > a { vrev<k> = vrev<k> - 1; let v = vrev<k>;` (k-th such loop; a, b are the literal or identifier bounds as written; the loop body is unchanged; same iteration sequence b-1, b-2, .., a)",
 ]
@@ -443,7 +445,7 @@ class Woven:
         self.name = name
 
 
-def normalise_fn(fn_src, cfg, rename=None, ret_name=None, debug_assert_verus=True, vis="pub ", revloops=None, lebytes=False):
+def normalise_fn(fn_src, cfg, rename=None, ret_name=None, debug_assert_verus=True, vis="pub ", revloops=None, lebytes=False, destruct=False, localconst=False):
     """Apply the TRANSFORMS to a raw fn slice; returns (text, undo) where undo
     is info the erasure check needs."""
     s = resolve_cfg(fn_src, cfg)
@@ -501,7 +503,72 @@ def normalise_fn(fn_src, cfg, rename=None, ret_name=None, debug_assert_verus=Tru
             return "let mut vrev%d: %s = %s; while vrev%d > %s { vrev%d = vrev%d - 1; let %s = vrev%d;" % (
                 k, revloops, m.group(3), k, m.group(2), k, k, m.group(1), k)
         s = re.sub(r'\bfor\s+(\w+)\s+in\s+\(\s*(\w+)\s*\.\.\s*(\w+)\s*\)\s*\.\s*rev\s*\(\s*\)\s*\{', _rv, s)
+    if destruct:
+        s = _destruct_text(s)
+    if localconst:
+        toks = tokenize(s)
+        body = next(i for i, t in enumerate(toks) if t.kind == 'op' and t.text == '{')
+        for i in range(len(toks) - 1, body, -1):
+            t = toks[i]
+            if t.kind == 'id' and t.text == 'const' and toks[i - 1].kind == 'op' and toks[i - 1].text in (';', '{', '}') \
+                    and toks[i + 1].kind == 'id' and toks[i + 2].kind == 'op' and toks[i + 2].text == ':':
+                s = s[:t.start] + 'let' + s[t.end:]
     return s, orig_name
+
+
+def _destruct_text(s):
+    """`(p0, p1, ..) = e;` at statement position -> `let (vdaK_0, vdaK_1, ..) = e; p0 = vdaK_0; p1 = vdaK_1; ..`
+    (`_` places stay `_` and get no assignment). Text surgery by token positions, last statement first."""
+    toks = tokenize(s)
+    found = []
+    for i, t in enumerate(toks):
+        if not (t.kind == 'op' and t.text == '(' and i > 0 and toks[i - 1].kind == 'op' and toks[i - 1].text in (';', '{', '}')):
+            continue
+        d = 0
+        j = i
+        while j < len(toks):
+            if toks[j].kind == 'op' and toks[j].text in OPEN:
+                d += 1
+            elif toks[j].kind == 'op' and toks[j].text in CLOSE:
+                d -= 1
+                if d == 0:
+                    break
+            j += 1
+        if j + 1 >= len(toks) or not (toks[j + 1].kind == 'op' and toks[j + 1].text == '='):
+            continue
+        # places: split at depth-1 commas
+        places = []
+        d = 0
+        cur = i + 1
+        for k in range(i, j + 1):
+            x = toks[k]
+            if x.kind == 'op' and x.text in OPEN:
+                d += 1
+            elif x.kind == 'op' and x.text in CLOSE:
+                d -= 1
+            if (x.kind == 'op' and x.text == ',' and d == 1) or k == j:
+                if k > cur:
+                    places.append(s[toks[cur].start:toks[k - 1].end])
+                cur = k + 1
+        # end of statement
+        d = 0
+        e = j + 2
+        while e < len(toks):
+            x = toks[e]
+            if x.kind == 'op' and x.text in OPEN:
+                d += 1
+            elif x.kind == 'op' and x.text in CLOSE:
+                d -= 1
+            elif x.kind == 'op' and x.text == ';' and d == 0:
+                break
+            e += 1
+        found.append((i, j, e, places))
+    for n, (i, j, e, places) in reversed(list(enumerate(found))):
+        names = ['_' if pl.strip() == '_' else 'vda%d_%d' % (n, q) for q, pl in enumerate(places)]
+        head = 'let (' + ', '.join(names) + ')'
+        tail = ''.join(' %s = %s;' % (pl, nm) for pl, nm in zip(places, names) if nm != '_')
+        s = s[:toks[i].start] + head + s[toks[j].end:toks[e].end] + tail + s[toks[e].end:]
+    return s
 
 
 def erase_tokens(fn_text):
@@ -510,7 +577,7 @@ def erase_tokens(fn_text):
     return [t.text for t in tokenize('\n'.join(lines))]
 
 
-def source_tokens(fn_src, cfg, rename=None, ret_name=None, debug_assert_verus=True, vis="pub ", revloops=None, lebytes=False):
+def source_tokens(fn_src, cfg, rename=None, ret_name=None, debug_assert_verus=True, vis="pub ", revloops=None, lebytes=False, destruct=False, localconst=False):
     """Tokens the erasure check expects: the raw slice with the documented
     transformations applied mechanically *on tokens* (independent code path
     from normalise_fn's text surgery)."""
@@ -578,6 +645,65 @@ def source_tokens(fn_src, cfg, rename=None, ret_name=None, debug_assert_verus=Tr
                 out.append(toks[i])
                 i += 1
         toks = out
+    if destruct:
+        out = []
+        i = 0
+        n = 0
+        while i < len(toks):
+            if toks[i] == '(' and out and out[-1] in (';', '{', '}'):
+                d = 0
+                j = i
+                while True:
+                    if toks[j] in ('(', '[', '{'):
+                        d += 1
+                    elif toks[j] in (')', ']', '}'):
+                        d -= 1
+                        if d == 0:
+                            break
+                    j += 1
+                if toks[j + 1] == '=':
+                    places = [[]]
+                    d = 0
+                    for t in toks[i + 1:j]:
+                        if t in ('(', '[', '{'):
+                            d += 1
+                        elif t in (')', ']', '}'):
+                            d -= 1
+                        if t == ',' and d == 0:
+                            places.append([])
+                        else:
+                            places[-1].append(t)
+                    places = [pl for pl in places if pl]
+                    names = ['_' if pl == ['_'] else 'vda%d_%d' % (n, q) for q, pl in enumerate(places)]
+                    n += 1
+                    out += ['let', '(']
+                    for q, nm in enumerate(names):
+                        if q:
+                            out.append(',')
+                        out.append(nm)
+                    out.append(')')
+                    e = j + 1
+                    d = 0
+                    while not (toks[e] == ';' and d == 0):
+                        if toks[e] in ('(', '[', '{'):
+                            d += 1
+                        elif toks[e] in (')', ']', '}'):
+                            d -= 1
+                        e += 1
+                    out += toks[j + 1:e + 1]
+                    for pl, nm in zip(places, names):
+                        if nm != '_':
+                            out += pl + ['=', nm, ';']
+                    i = e + 1
+                    continue
+            out.append(toks[i])
+            i += 1
+        toks = out
+    if localconst:
+        b0 = toks.index('{')
+        for i in range(b0 + 1, len(toks) - 2):
+            if toks[i] == 'const' and toks[i - 1] in (';', '{', '}') and toks[i + 2] == ':' and re.match(r'^[A-Za-z_]\w*$', toks[i + 1]):
+                toks[i] = 'let'
     return toks
 
 
